@@ -214,9 +214,21 @@ def run_case(case, work, rec):
                 else:
                     ap, ae = rng.choice(cands)
                     take = [n for n in ae.names if n not in names]
-                    descr = f"combine(current, ancestor {os.path.basename(ap)}) taking {take}"
-                    combine(PlotfileCooker(cur), PlotfileCooker(ap), pltout=out)
-                    new_exp = refmodel.concat(exp, list(range(len(names))), ae, [ae.names.index(n) for n in take])
+                    shared = [n for n in ae.names if n in names]
+                    if shared and len(names) >= 2 and rng.random() < 0.7:
+                        # both selections given: a field the two plotfiles share is left out of the first selection
+                        # and named in the second - the ancestor's version of it is wanted
+                        sfield = rng.choice(shared)
+                        v1 = [n for n in names if n != sfield]
+                        v2 = [sfield] + take
+                        descr = f"combine(current, ancestor {os.path.basename(ap)}, vars1={v1}, vars2={v2})"
+                        combine(PlotfileCooker(cur), PlotfileCooker(ap), pltout=out, vars1=" ".join(v1), vars2=" ".join(v2))
+                        new_exp = refmodel.concat(exp, [names.index(n) for n in v1], ae, [ae.names.index(n) for n in v2])
+                        rec.count("combine_with_both_selections")
+                    else:
+                        descr = f"combine(current, ancestor {os.path.basename(ap)}) taking {take}"
+                        combine(PlotfileCooker(cur), PlotfileCooker(ap), pltout=out)
+                        new_exp = refmodel.concat(exp, list(range(len(names))), ae, [ae.names.index(n) for n in take])
                     check_mm = False
         except Exception as e:
             rec.violation(f"step {depth} raised {type(e).__name__}: {descr or kind} after {case['history'][:depth - 1]}",
